@@ -385,6 +385,16 @@ fn steer_case(ctx: &Ctx, idx: u64, r: &mut Rng) -> Case {
             b[n - 8..].copy_from_slice(&0u64.to_le_bytes());
             mk(Rd::LzipMt { workers: 2 }, b, "lzip-member-size-0", 4096, "member_size 0")
         }
+        37 => {
+            // member_size 0 in the trailer of a member that is NOT the last one
+            let (a, _) = valid_stream(r, Container::Lzip { member: None }, 500);
+            let (c, _) = valid_stream(r, Container::Lzip { member: None }, 700);
+            let mut b = a.clone();
+            let n = b.len();
+            b[n - 8..].copy_from_slice(&0u64.to_le_bytes());
+            b.extend_from_slice(&c);
+            mk(Rd::LzipMt { workers: 2 }, b, "lzip-member-size-0-inner", 4096, "member_size 0 in the first of two members")
+        }
         28 => {
             let (mut b, _) = valid_stream(r, Container::Lzip { member: None }, 500);
             let n = b.len();
@@ -634,8 +644,29 @@ fn random_case(ctx: &Ctx, r: &mut Rng) -> Case {
                 h[n - 2] = tail[0];
                 h[n - 1] = tail[1];
             }
-            let crc = if r.chance(1, 2) { walk::crc32(&h) } else { r.next_u32() };
-            h.extend_from_slice(&crc.to_le_bytes());
+            match r.below(3) {
+                0 => {
+                    let crc = walk::crc32(&h);
+                    h.extend_from_slice(&crc.to_le_bytes());
+                }
+                1 => {
+                    let crc = r.next_u32();
+                    h.extend_from_slice(&crc.to_le_bytes());
+                }
+                _ => {
+                    // no CRC at all: the field grammar runs up to the very last byte of the declared
+                    // header (filters are parsed before the CRC is looked at)
+                    for _ in 0..4 {
+                        h.push(*r.pick(&alphabet));
+                    }
+                    let n = h.len();
+                    let tail = r.pick(&[[0x21u8, 0x01], [0x03, 0x01], [0x04, 0x04], [0x21, 0x00], [0x04, 0x00]]);
+                    h[n - 2] = tail[0];
+                    h[n - 1] = tail[1];
+                    // make the flags byte announce 1-4 filters and no optional sizes more often
+                    h[1] = r.below(4) as u8;
+                }
+            }
             b.extend_from_slice(&h);
             let n = r.usize_below(64);
             b.extend(r.bytes(n));
@@ -712,6 +743,11 @@ pub fn make_case(ctx: &Ctx, idx: u64) -> Case {
     } else {
         random_case(ctx, &mut r)
     }
+}
+
+fn unsafe_static_slice(b: &Vec<u8>) -> &'static [u8] {
+    // SAFETY: the Vec is owned by the closure that also owns the reader and outlives it.
+    unsafe { std::slice::from_raw_parts(b.as_ptr(), b.len()) }
 }
 
 /// Outcome of driving one reader over the input: calls made, bytes produced, first error.
@@ -795,10 +831,20 @@ pub fn run_case(ctx: &Ctx, idx: u64) -> Vec<CaseOut> {
                 Ok(rd) => drive(rd, bufsize, cap),
                 Err(e) => Run { produced: 0, first_err: Some(format!("ctor {:?}:{}", e.kind(), e)), calls: 0, stopped_by_cap: false },
             },
-            Rd::LzipMt { workers } => match LZIPReaderMT::new(Cursor::new(input), workers) {
-                Ok(rd) => drive(rd, bufsize, cap),
-                Err(e) => Run { produced: 0, first_err: Some(format!("ctor {:?}:{}", e.kind(), e)), calls: 0, stopped_by_cap: false },
-            },
+            Rd::LzipMt { workers } => {
+                // logical step bound on the (seekable) source
+                let budget = 400_000 + 64 * input.len();
+                let (src, flag) = crate::fio::FaultyRead::new(unsafe_static_slice(&input), crate::fio::ReadPlan::default()).with_budget(budget);
+                let run = match LZIPReaderMT::new(src, workers) {
+                    Ok(rd) => drive(rd, bufsize, cap),
+                    Err(e) => Run { produced: 0, first_err: Some(format!("ctor {:?}:{}", e.kind(), e)), calls: 0, stopped_by_cap: false },
+                };
+                if flag.load(std::sync::atomic::Ordering::SeqCst) {
+                    Run { produced: run.produced, first_err: Some("UNBOUNDED-SOURCE-CALLS".into()), calls: budget as u64, stopped_by_cap: false }
+                } else {
+                    run
+                }
+            }
             Rd::Lzma2Mt { dict, workers } => drive(LZMA2ReaderMT::new(input.as_slice(), dict, None, workers), bufsize, cap),
             Rd::Bcj { id, off } => drive(mk_bcj_reader(id, input.as_slice(), off as usize), bufsize, cap),
             Rd::Delta { dist } => drive(DeltaReader::new(input.as_slice(), dist), bufsize, cap),
@@ -836,6 +882,15 @@ pub fn run_case(ctx: &Ctx, idx: u64) -> Vec<CaseOut> {
         if let Some(p) = tp.iter().find(|p| !p.loc.contains("harness")) {
             out.push(CaseOut::viol(cell_base.clone(), format!("worker-panic {rname} @{}{dbg}", p.site()), p.short_msg(), desc.clone()));
         }
+    }
+    if run.first_err.as_deref() == Some("UNBOUNDED-SOURCE-CALLS") {
+        out.push(CaseOut::viol(
+            cell_base.clone(),
+            format!("unbounded-work {rname} ({})", case.class),
+            format!("more than {} source calls for {} input bytes", run.calls, case.input.len()),
+            desc.clone(),
+        ));
+        return out;
     }
     // memory clause
     let allowed = case.declared_dict + (8 << 20) + 64 * (case.input.len() as u64 + case.extra.iter().map(|e| e.len() as u64).sum::<u64>()) + bufsize as u64;
